@@ -100,6 +100,7 @@ def oracle(case, out):
 
 
 SYMS = ["S+", "S-", "T+", "T-", "E1", "E0", "E0f", "A1", "A0", "X"]
+EXTRA_SYMS = ["E0g"]      # failing expectation whose format strings contain literal percent signs: in random scripts
 
 
 def materialize(seq, thread_mask=0):
@@ -143,12 +144,15 @@ def run(ctx):
         for n in range(0, L + 1):
             for seq in itertools.product(SYMS, repeat=n):
                 cases.append(["tf " + materialize(seq)])
+        for seq in (["E0g"], ["T+", "E0g"], ["S+", "T+", "E0g", "E1"], ["T+", "E0g", "T+", "E1"], ["S+", "E0g", "S-"], ["T+", "E1", "E0g", "X"]):
+            cases.append(["tf " + materialize(seq)])
         ctx.exhaustive = True
         ctx.extra_cov["exhaustive_script_length"] = L
         r = ctx.rng
         for _ in range(3000 if quick else 30000):
             n = r.randrange(6, 61)
             seq = [r.choice(SYMS[:9] if r.random() < 0.9 else SYMS) for _ in range(n)]
+            if r.random() < 0.01: seq = [("E0g" if s == "E0f" else s) for s in seq]     # few: a program that hangs costs its time limit
             # assertions failing and end_testing are rare so that long scripts run long
             seq = [s if s not in ("A0",) or r.random() < 0.1 else "A1" for s in seq]
             mask = 0
